@@ -230,6 +230,17 @@ let run_solve (h : (string, string) Hashtbl.t) : string =
             | SolOk v -> List.iter2 (fun a b -> let d = Float.abs (a -. b) in if d > !maxdev || Float.is_nan d then maxdev := d) v yi
             | _ -> incr fails) s.sol_t s.sol_y;
         Buffer.add_string buf (Printf.sprintf "selfsol fails=%d maxdev=%s\n" !fails (hx !maxdev)));
+     (match s.sol_segs with
+      | None -> ()
+      | Some _ ->
+        List.iteri (fun i (tev, yev) ->
+            let maxdev = ref 0.0 and fails = ref 0 in
+            List.iter2 (fun te ye ->
+                match sol_eval fops meth (nat_of_int (List.length y0)) s te with
+                | SolOk v -> List.iter2 (fun a b -> let d = Float.abs (a -. b) in if d > !maxdev || Float.is_nan d then maxdev := d) v ye
+                | _ -> incr fails) tev yev;
+            Buffer.add_string buf (Printf.sprintf "evsol %d fails=%d maxdev=%s\n" i !fails (hx !maxdev)))
+          (List.combine s.sol_tev s.sol_yev));
      if get h "py" "0" = "1" then begin
        let z_to_int = function Z0 -> 0 | Zpos p -> int_of_pos p | Zneg p -> - (int_of_pos p) in
        Buffer.add_string buf (Printf.sprintf "pystatus %d %s\n" (z_to_int (py_status s.sol_status))
@@ -317,7 +328,7 @@ let run_matrix (h : (string, string) Hashtbl.t) : string =
        let r = match p.(0) with
          | "none" -> Some a
          | "add" | "addassign" -> addsub fops false a (getb ())
-         | "sub" | "subassign" -> addsub fops true a (getb ())
+         | "sub" | "subassign" | "subassignref" -> addsub fops true a (getb ())
          | "cadd" -> Some (caddsub fops false a (unhx p.(1)))
          | "csub" -> Some (caddsub fops true a (unhx p.(1)))
          | "cmul" -> Some (cmul fops a (unhx p.(1)))
